@@ -165,7 +165,11 @@ def partition_table(findings, counters):
                 mab = MAB([1, 2], LearningPolicy.EpsilonGreedy(0), n_jobs=nj)
                 imp = mab._imp
                 for n in list(range(1, 41)) + [63, 64]:
-                    k, sizes, starts = imp._partition_contexts(n)
+                    try:
+                        k, sizes, starts = imp._partition_contexts(n)
+                    except (AttributeError, TypeError, ValueError):
+                        counters["projection_unavailable"] = counters.get("projection_unavailable", 0) + 1
+                        return calls
                     calls.append({"n": n, "nj": nj, "cpu": cpu, "part": {"k": int(k), "sizes": [int(x) for x in sizes],
                                                                           "starts": [int(x) for x in starts]},
                                   "seeds": list(range(n)),
